@@ -645,7 +645,8 @@ fn exec_once(input: &Input) -> Exec {
             *w = None;
             return Exec::Died("worker pipe closed before the case was sent".into());
         }
-        let limit = if matches!(input, Input::Tcp { .. }) { WALL_LIMIT * 10 } else { WALL_LIMIT };
+        // TCP cases: up to three attempts with up to three 6 s waits each before the worker answers
+        let limit = if matches!(input, Input::Tcp { .. }) { if IS_SHRINKING.with(|f| f.get()) { WALL_LIMIT * 3 } else { WALL_LIMIT * 7 } } else { WALL_LIMIT };
         match proc_.lines.recv_timeout(limit) {
             Ok(l) => match serde_json::from_str::<WorkerResult>(&l) {
                 Ok(r) => Exec::Result(r),
@@ -827,7 +828,11 @@ pub fn run(ctx: &Ctx, findings: &Findings) -> PropReport {
         }
     } else {
         subs.push(drive(ctx, findings, "inputs", RULE, ctx.cases(40000, 800000), strategy, &check));
-        subs.push(drive(ctx, findings, "tcp", RULE_TCP, ctx.cases(4000, 80000), tcp_strategy, &check));
+        // a violation found by the in-process driver ends the run: the TCP driver (real time, slower per
+        // failing case) is only worth its time on a tree that passed the first one
+        if subs.iter().all(|s| s.violations.is_empty()) {
+            subs.push(drive(ctx, findings, "tcp", RULE_TCP, ctx.cases(4000, 80000), tcp_strategy, &check));
+        }
         if ctx.tier == Tier::Thorough {
             let to_input = |bytes: &[u8]| Input::Bytes { with_meta: bytes.first().map(|b| b & 1 == 1).unwrap_or(false), pieces: vec![Piece::Raw(bytes.get(1..).unwrap_or(&[]).to_vec())] };
             let spec = crate::fuzzing::FuzzSpec {
